@@ -74,7 +74,7 @@ func verifH_C18_connect() {
 	w1, wr, wp := 0, 0, 0
 	switch verifChoose("pending", verifParam("shapes", 3)) {
 	case 1:
-		w1 = 1
+		w1, wr = 1, 1 // both levels pending: the second resend follows the first on the same connection
 	case 2:
 		wr, wp = 1, 1
 	case 3:
